@@ -98,6 +98,11 @@ pub mod env {
         if n == 0 { (Err(1), b.len()) } else if o.replies.starts_with(b"-") { (Err(2), 0) } else { (Ok((Bytes::new(), Bytes::new(), usize::MAX)), 0) }
     }
     pub fn wal_only_entry_replayed(seg_max: [u64; 2], ts: u64) -> bool { crate::conn::wal_only_entry_replayed(seg_max, ts) }
+    pub fn compact_then_recover(inside: [Option<redis_sim::replication::state::ReplicationDelta>; 3], outside: Option<redis_sim::replication::state::ReplicationDelta>, now: u64)
+        -> (Option<redis_sim::replication::state::ReplicatedValue>, Option<redis_sim::replication::state::ReplicatedValue>, bool, u64) { crate::conn::compact_then_recover(inside.into_iter().flatten().collect(), outside, now) }
+    pub fn recover_plan(ids: &[u64], min_ts: &[u64], ckpt_last: Option<u64>) -> Vec<u64> { crate::conn::recover_plan(ids, min_ts, ckpt_last) }
+    pub fn recovered_then_write(clock0: u64, recovered: redis_sim::replication::state::ReplicatedValue, nb: u8)
+        -> (redis_sim::replication::lattice::LamportClock, Option<u8>) { crate::conn::recovered_then_write(clock0, recovered, nb) }
     /// natively: the buffer (the GET frames followed by one padded PING, so that run() enters its batching
     /// branch) goes through the real run(); answered <=> one reply per GET the collector consumed, plus the PING
     pub fn consumed_gets_answered(buffer: &[u8], count: usize, threshold: usize) -> bool {
